@@ -638,31 +638,45 @@ theorem knowledge_only_from_resolution_within_ttl (w0 : World)
   obtain ⟨x, hx, ck, hs, hb, hn⟩ := inv.know _ _ (Assoc.mem_of_get he)
   exact ⟨x, hx, ck, e, hs, hb, hn, hlt⟩
 
-/-- … and in a well-keyed history without restores the witness is a resolution **of that very name
-and address family**: same canonical (lower-cased, fully qualified) name, query type A for an IPv4
-destination and AAAA otherwise. (`WellKeyed`: every update is stored under the key family of its own
-question — what all production callers do, `wellKeyed_of_production`. Without it a scoped key
-`victim.test.1|x` passed with another host would count for `victim.test`.) -/
+/-- … and when every update carries one of the key shapes of the production callers
+(`ProductionKeyed`: the key computed from its own question, optionally followed by `|scope`) and
+nothing was restored, the witness is a resolution **of that very name and address family**: same
+canonical (lower-cased, fully qualified, `|` escaped) name, query type A for an IPv4 destination and
+AAAA otherwise. No side condition on the characters of the names: since fix `4e63a53` a `|` inside a
+question name is escaped in the key, so a question for `victim.1|x.zone.` no longer lands in the
+family of (`victim`, A) (example below). For callers of `UpdateDnsCacheTtlWithKey` that pass a key
+unrelated to the host the statement is false (second example). -/
 theorem knowledge_names_the_resolved_name (w0 : World)
     (hc : w0.cache = []) (hk : w0.know = []) (hr : w0.realSet = []) (es : List Event)
-    (hwk : ∀ e ∈ es, WellKeyed e) (hnr : ∀ e ∈ es, ∀ l, e ≠ .dnsRestore l)
+    (hpk : ∀ e ∈ es, ProductionKeyed e) (hnr : ∀ e ∈ es, ∀ l, e ≠ .dnsRestore l)
     (name : Str) (is4 : Bool)
     (h : (hasKnowledge (run w0 es) (cacheKey name is4)).2 = true) :
     ∃ x ∈ trace w0 es, ∃ host q ttl key,
       x.2 = .dnsUpdate host q ttl key ∧ (dnsUpdate x.1 host q ttl key).2 = true ∧
-      canonicalName (fqdnOf host) = canonicalName name ∧ itoa q = qtypeStr is4 ∧
+      escBar (canonicalName (fqdnOf host)) = escBar (canonicalName name) ∧ itoa q = qtypeStr is4 ∧
       x.1.now ≤ (run w0 es).now ∧ (run w0 es).now < x.1.now + ttl := by
   obtain ⟨x, hx, ck, od, hs, hb, hn, hlt⟩ :=
     knowledge_only_from_resolution_within_ttl w0 hc hk hr es name is4 h
   have hev := mem_trace_event w0 es x hx
   rcases hs with ⟨host, q, ttl, key, h1, h2, h3, h4⟩ | ⟨l, h1, _⟩
-  · have wk := hwk _ hev
+  · have wk := wellKeyed_of_production _ (hpk _ hev)
     rw [h1] at wk
     have wk' : baseKeyOf (updateKey host q key) = cacheKeyQ (fqdnOf host) q := wk
     rw [h3, hb] at wk'
     obtain ⟨e1, e2⟩ := cacheKeyQ_eq_cacheKey (fqdnOf host) name q is4 wk'.symm
     exact ⟨x, hx, host, q, ttl, key, h1, h2, e1, e2, hn, by rw [← h4]; exact hlt⟩
   · exact absurd h1 (hnr _ hev l)
+
+-- the defect fixed by 4e63a53: a question name containing `|` does not create knowledge for the
+-- name in front of the `|` any more (unscoped and scoped key) …
+example :
+    let q := "victim.test.1|x.attacker.example.".toList
+    (hasKnowledge (run {} [Event.dnsUpdate q 1 600000000000 []]) (cacheKey "victim.test".toList true)).2 = false ∧
+    (hasKnowledge (run {} [Event.dnsUpdate q 1 600000000000 (cacheKeyQ q 1 ++ "|asis@8.8.8.8:53".toList)])
+      (cacheKey "victim.test".toList true)).2 = false ∧
+    -- … while the name itself is known under its own (escaped) key
+    (hasKnowledge (run {} [Event.dnsUpdate q 1 600000000000 []]) (cacheKey "victim.test.1|x.attacker.example".toList true)).2 = true := by
+  decide
 
 /-- Conversely, after a resolution through dae the answer stays true until the original deadline,
 whatever else happens — except removals of cache entries of the same family (those recompute the
@@ -683,7 +697,7 @@ theorem knowledge_holds_until_original_ttl (w : World) (host : Str) (is4 : Nat) 
 example : baseKeyOf (updateKey "Example.COM".toList 1 []) = cacheKey "example.com".toList true := by decide
 example : baseKeyOf (updateKey "example.com.".toList 28 ("example.com.28|asis@1.1.1.1:53".toList))
     = cacheKey "EXAMPLE.com".toList false := by decide
--- why `WellKeyed` is needed: a foreign host under a victim's scoped key
+-- why `ProductionKeyed` is needed: a caller passing a key unrelated to the host
 example : (hasKnowledge (run {} [Event.dnsUpdate "evil.test".toList 1 600000000000 "victim.test.1|x".toList])
     (cacheKey "victim.test".toList true)).2 = true := by decide
 -- non-vacuity of both theorems on a concrete history
